@@ -89,6 +89,31 @@ func Solve(o *Obligation, cfg *SolverCfg) {
 	if o.Static {
 		return
 	}
+	if o.Kind == "vacuity" && cfg.Timeout > 3*time.Second {
+		// consistency covers: only a quick UNSAT is informative
+		c2 := *cfg
+		c2.Timeout = 3 * time.Second
+		cfg = &c2
+	}
+	if o.SMTFocus != "" && o.Kind != "vacuity" {
+		// first a short attempt with every assumption, then the focused variant (a proof from fewer
+		// hypotheses is still a proof; a model of the focused variant is not a counterexample)
+		c1 := *cfg
+		c1.Timeout = cfg.Timeout / 4
+		solveWith(o, &c1, o.SMT, "")
+		if o.Result == "unsat" || o.Result == "sat" {
+			return
+		}
+		first := *o
+		solveWith(o, cfg, o.SMTFocus, ".f")
+		o.Ms += first.Ms
+		if o.Result == "unsat" {
+			o.Encoding = "focused"
+			return
+		}
+		// not proved from the focused hypotheses either: fall through to the full query
+		o.Result = ""
+	}
 	solveWith(o, cfg, o.SMT, "")
 	if o.Result == "unsat" || o.Result == "sat" || o.Kind == "vacuity" {
 		return
